@@ -56,6 +56,8 @@ pub struct Ctx {
     pub journal: Option<std::fs::File>,
     pub max_violations: usize,
     pub replay_dir: PathBuf,
+    /// progress counter watched by the stall detector thread
+    pub tick: std::sync::Arc<std::sync::atomic::AtomicU64>,
 }
 
 pub const MAX_SAMPLES: usize = 12;
@@ -83,6 +85,7 @@ impl Ctx {
             journal: None,
             max_violations: 5,
             replay_dir: PathBuf::from(crate::verif_root()).join("replays").join(prop),
+            tick: std::sync::Arc::new(std::sync::atomic::AtomicU64::new(0)),
         }
     }
 
@@ -135,6 +138,7 @@ impl Ctx {
     #[inline]
     pub fn eval(&mut self, hash: u64, nontrivial: bool) {
         self.evaluations += 1;
+        self.tick.fetch_add(1, std::sync::atomic::Ordering::Relaxed);
         if nontrivial {
             let bit = hash >> (64 - BITMAP_LOG2);
             self.bitmap[(bit >> 6) as usize] |= 1u64 << (bit & 63);
@@ -205,6 +209,7 @@ impl Ctx {
     /// journal mode: note the case about to be executed
     #[inline]
     pub fn journal(&mut self, f: impl FnOnce() -> Value) {
+        self.tick.fetch_add(1, std::sync::atomic::Ordering::Relaxed);
         if let Some(j) = self.journal.as_mut() {
             let v = f();
             let _ = j.set_len(0);
@@ -319,4 +324,30 @@ pub fn unhex(s: &str) -> Vec<u8> {
         i += 2;
     }
     out
+}
+
+/// Exit code of a worker that made no progress for too long (a case that does not return).
+pub const EXIT_STALL: i32 = 77;
+
+/// Starts a thread that aborts the process with EXIT_STALL when the progress counter
+/// does not move for `secs` seconds.
+pub fn start_stall_detector(tick: std::sync::Arc<std::sync::atomic::AtomicU64>, secs: u64) {
+    std::thread::spawn(move || {
+        let mut last = tick.load(std::sync::atomic::Ordering::Relaxed);
+        let mut still = 0u64;
+        loop {
+            std::thread::sleep(std::time::Duration::from_secs(1));
+            let now = tick.load(std::sync::atomic::Ordering::Relaxed);
+            if now == last {
+                still += 1;
+                if still >= secs {
+                    eprintln!("STALL: no case finished for {} s", secs);
+                    std::process::exit(EXIT_STALL);
+                }
+            } else {
+                still = 0;
+                last = now;
+            }
+        }
+    });
 }
